@@ -4,6 +4,9 @@
 
 package cppki
 
+//@ # decoding never yields nil certificate pointers (decodeCertificates); hand-built TRCs must not contain any
+//@ macro certsOK(t) = (forall ci int :: 0 <= ci && ci < len((t).Certificates) ==> (t).Certificates[ci] != nil)
+
 //@ # ---- TRC updates (C35; the vote/signature rules themselves belong to C32 and are abstracted here).
 //@ # trcKey(t): identity of a TRC payload value.
 //@ spec func trcKey(t TRC) uint64 uninterpreted
@@ -62,8 +65,8 @@ package cppki
 //@ # every certificate's validity covers the validity of the TRC
 //@ macro certCovers(trc, i) = (trc.Certificates[i].NotBefore.ext <= trc.Validity.NotBefore.ext && trc.Validity.NotAfter.ext <= trc.Certificates[i].NotAfter.ext)
 //@ func (*TRC).Validate
-//@   props C33 C35
-//@   requires trc != nil && forall i int :: 0 <= i && i < len(trc.Certificates) ==> trc.Certificates[i] != nil
+//@   props C33
+//@   requires trc != nil && certsOK(trc)
 //@   modifies nothing
 //@   loop 1 invariant 0 <= (rangeindex+1) && (rangeindex+1) <= len(trc.Certificates)
 //@   loop 1 invariant forall c int :: 0 <= c && c < (rangeindex+1) ==> certCovers(trc, c)
@@ -92,7 +95,7 @@ package cppki
 //@ macro succOf(t, p) = ((p).ID.ISD == (t).ID.ISD && (p).ID.Base == (t).ID.Base && (p).ID.Serial + 1 == (t).ID.Serial && (p).NoTrustReset == (t).NoTrustReset && len((t).Votes) >= (p).Quorum)
 //@ func (*TRC).ValidateUpdate
 //@   props C35
-//@   requires trc != nil && (predecessor != nil ==> predecessor.Quorum >= 1)
+//@   requires trc != nil && certsOK(trc) && (predecessor != nil ==> predecessor.Quorum >= 1)
 //@   modifies nothing
 //@   ensures result1 == nil ==> predecessor != nil && succOf(trc, predecessor) && trc.Quorum >= 1
 
@@ -106,13 +109,13 @@ package cppki
 
 //@ func (*SignedTRC).verifyUpdate
 //@   props C35
-//@   requires s != nil && (predecessor != nil ==> predecessor.Quorum >= 1)
+//@   requires s != nil && certsOK(s.TRC) && (predecessor != nil ==> predecessor.Quorum >= 1)
 //@   modifies nothing
 //@   ensures result == nil ==> predecessor != nil && succOf(&s.TRC, predecessor) && s.TRC.Quorum >= 1
 
 //@ func (*SignedTRC).Verify
 //@   props C35
-//@   requires s != nil && (predecessor != nil ==> predecessor.Quorum >= 1)
+//@   requires s != nil && certsOK(s.TRC) && (predecessor != nil ==> predecessor.Quorum >= 1)
 //@   modifies okKey, okPred
 //@   gset okKey := ite(result == nil, trcKey(s.TRC), old(okKey))
 //@   gset okPred := ite(result == nil && predecessor != nil, trcKey(*predecessor), old(okPred))
